@@ -37,6 +37,7 @@ func runC16(r *Run) {
 	fireAfter := t.Draw(12)
 	r.DrawYields()
 	peerDataAfterClose := t.Pct(30)
+	emptyClose := t.Pct(30) // the first Close frame carries no status code (1005 / empty payload)
 	msgLen := []int{0, 10, 600, 3000, 9000}[t.Draw(5)]
 	useWriter := t.Draw(2) == 1
 	rc.Lib.Out().Cap = []int{1 << 30, 4096, 512, 64}[t.Draw(4)]
@@ -57,6 +58,7 @@ func runC16(r *Run) {
 	r.D("fire_after", fireAfter)
 	r.D("msg_len", msgLen)
 	r.D("peer_data_after_close", peerDataAfterClose)
+	r.D("empty_close", emptyClose)
 	r.Nontrivial = true
 
 	bg := context.Background()
@@ -160,9 +162,17 @@ func runC16(r *Run) {
 		}
 		switch trig {
 		case 0:
-			c.Close(websocket.StatusNormalClosure, "bye")
+			if emptyClose {
+				c.Close(websocket.StatusNoStatusRcvd, "")
+			} else {
+				c.Close(websocket.StatusNormalClosure, "bye")
+			}
 		case 1:
-			peer.Send(wsref.Frame{Fin: true, Opcode: wsref.OpClose, Payload: wsref.ClosePayload(4000, "peer")})
+			pl := wsref.ClosePayload(4000, "peer")
+			if emptyClose {
+				pl = nil
+			}
+			peer.Send(wsref.Frame{Fin: true, Opcode: wsref.OpClose, Payload: pl})
 			if peerDataAfterClose {
 				peer.Send(wsref.Frame{Fin: true, Opcode: wsref.OpText, Payload: []byte("late")})
 			}
